@@ -269,7 +269,27 @@ impl World {
                     yield_once().await;
                 }
                 let host = mk_host(i, &spec.pad);
-                let r = m.new_stream_channel(&host, spec.port).await;
+                let r = match spec.cancel {
+                    None => m.new_stream_channel(&host, spec.port).await,
+                    Some(n) => {
+                        let mut fut = std::pin::pin!(m.new_stream_channel(&host, spec.port));
+                        let mut stop = std::pin::pin!(parking.park(n));
+                        let raced = std::future::poll_fn(|cx| {
+                            if stop.as_mut().poll(cx).is_ready() {
+                                return std::task::Poll::Ready(None);
+                            }
+                            fut.as_mut().poll(cx).map(Some)
+                        })
+                        .await;
+                        match raced {
+                            Some(r) => r,
+                            None => {
+                                log.app(AppEv::OpenErr { stream: i, err: "CancelledByCaller".into() });
+                                return;
+                            }
+                        }
+                    }
+                };
                 drop(m);
                 match r {
                     Ok(s) => {
